@@ -221,7 +221,7 @@ def check_purpose_separation(ctx, P):
        sig-purpose tags with the caller's message (or pk‖message for augmentation),
        the POP tag only with the key's own bytes."""
     rows = core_call_table(ctx, P)
-    ctx.floor("E5.purpose", "core_* call sites in scheme traits", len(rows), 16)
+    ctx.floor("E5.purpose", "core_* call sites in scheme traits", len(rows), 8)
     for r in rows:
         fn = r["fn"]
         tag = r["tag"]
